@@ -5,6 +5,7 @@ import BpModel.Model.OpMode
 import BpModel.Model.Wire
 import BpModel.Model.Expr
 import BpModel.Model.Lit
+import BpModel.Model.Front
 /-!
 # bpdrv — line-protocol driver for the executable model
 
@@ -102,6 +103,77 @@ def ofHex (s : String) : Except String (List Nat) :=
       | _, _ => .error "bad hex"
     | _, _ => .error "odd hex"
   go s.toList []
+
+partial def tyToJson (t : Ty) : Json :=
+  match t with
+  | .bool => "bool"
+  | .byte => "byte"
+  | .uint n => Json.mkObj [("uint", n)]
+  | .int n => Json.mkObj [("int", n)]
+  | .enum n ms => Json.mkObj [("enum", n), ("members", .arr (ms.map fun (m : Nat) => toJson m).toArray)]
+  | .alias t => Json.mkObj [("alias", tyToJson t)]
+  | .array ext cap e => Json.mkObj [("array", tyToJson e), ("cap", cap), ("ext", ext)]
+  | .msg ext fs => Json.mkObj [("msg", .arr (fs.map fun (k, ft) => Json.mkObj [("num", k), ("ty", tyToJson ft)]).toArray), ("ext", ext)]
+
+def pathOfJson (j : Json) : Except String (List String) := do
+  let a ← j.getArr?
+  a.toList.mapM (·.getStr?)
+
+def cexprOfJson (j : Json) : Except String Front.CExpr :=
+  if let .ok v := j.getObjValAs? Int "int" then .ok (.lit (.int v))
+  else if let .ok v := j.getObjValAs? Bool "bool" then .ok (.lit (.bool v))
+  else if let .ok v := j.getObjValAs? String "str" then .ok (.lit (.str v))
+  else if let .ok p := j.getObjVal? "ref" then do .ok (.ref (← pathOfJson p))
+  else .error s!"bad cexpr {j.compress}"
+
+partial def tyEOfJson (j : Json) : Except String Front.TyE :=
+  match j with
+  | .str "bool" => .ok .bool
+  | .str "byte" => .ok .byte
+  | _ =>
+    if let .ok n := j.getObjValAs? Nat "uint" then .ok (.uint n)
+    else if let .ok n := j.getObjValAs? Nat "int" then .ok (.int n)
+    else if let .ok p := j.getObjVal? "ref" then do .ok (.ref (← pathOfJson p))
+    else if let .ok e := j.getObjVal? "array" then do
+      let e ← tyEOfJson e
+      let cj ← j.getObjVal? "cap"
+      let cap ← if let .ok n := cj.getObjValAs? Nat "lit" then pure (Front.CapE.lit n)
+        else if let .ok p := cj.getObjVal? "cref" then do pure (Front.CapE.cref (← pathOfJson p))
+        else .error "bad cap"
+      let ext ← j.getObjValAs? Bool "ext"
+      .ok (.array e cap ext)
+    else .error s!"bad tyE {j.compress}"
+
+partial def itemOfJson (j : Json) : Except String Front.Item := do
+  let k ← j.getObjValAs? String "k"
+  let line ← j.getObjValAs? Nat "line"
+  match k with
+  | "const" => .ok (.const line (← j.getObjValAs? String "name") (← cexprOfJson (← j.getObjVal? "v")))
+  | "alias" => .ok (.alias line (← j.getObjValAs? String "name") (← tyEOfJson (← j.getObjVal? "ty")))
+  | "enum" =>
+    let ms ← j.getObjValAs? (Array Json) "members"
+    let ms ← ms.toList.mapM fun m => do
+      pure ((← m.getObjValAs? Nat "line"), (← m.getObjValAs? String "name"), (← m.getObjValAs? Nat "value"))
+    let extra ← match j.getObjValAs? (Array Json) "extra" with
+      | .ok a => a.toList.mapM itemOfJson
+      | .error _ => pure []
+    .ok (.enum line (← j.getObjValAs? String "name") (← j.getObjValAs? Nat "nbits") ms extra)
+  | "msg" =>
+    let its ← j.getObjValAs? (Array Json) "items"
+    let its ← its.toList.mapM itemOfJson
+    .ok (.msg line (← j.getObjValAs? String "name") (← j.getObjValAs? Bool "ext") its)
+  | "field" => .ok (.field line (← j.getObjValAs? String "name") (← j.getObjValAs? Nat "num") (← tyEOfJson (← j.getObjVal? "ty")))
+  | "option" => .ok (.option line (← j.getObjValAs? String "name") (← cexprOfJson (← j.getObjVal? "v")))
+  | "import" =>
+    let a := match j.getObjValAs? String "as" with | .ok a => some a | .error _ => none
+    .ok (.import_ line a (← j.getObjValAs? String "file"))
+  | _ => .error s!"bad item kind {k}"
+
+partial def entMsgs (pre : String) (mem : List (String × Front.Ent)) : List Json :=
+  mem.flatMap fun (n, e) =>
+    match e with
+    | .msg _ t inner => Json.mkObj [("path", pre ++ n), ("ty", tyToJson t.normalize), ("nbits", t.nbits)] :: entMsgs (pre ++ n ++ ".") inner
+    | _ => []
 
 def excJson (e : Exc) : Json := Json.mkObj [("exc", e.name)]
 def okJson (j : Json) : Json := Json.mkObj [("ok", j)]
@@ -266,6 +338,18 @@ def handle (op : String) (req : Json) : Except String Json := do
     match Lit.denoteInt t.toList with
     | some v => pure (okJson (v : Int))
     | none => pure (Json.mkObj [("exc", "not-a-literal")])
+  | "front.check" =>
+    let fsj ← req.getObjValAs? (Array Json) "files"
+    let files ← fsj.toList.mapM fun f => do
+      let its ← f.getObjValAs? (Array Json) "items"
+      let its ← its.toList.mapM itemOfJson
+      pure ({ name := (← f.getObjValAs? String "name"), proto := (← f.getObjValAs? String "proto"), items := its } : Front.File)
+    let main ← req.getObjValAs? String "main"
+    let trad := match req.getObjValAs? Bool "traditional" with | .ok b => b | .error _ => false
+    match Front.checkProgram files main trad with
+    | .ok (.proto _ _ mem) => pure (Json.mkObj [("ok", .arr (entMsgs "" mem).toArray)])
+    | .ok _ => pure (Json.mkObj [("ok", .arr #[])])
+    | .error d => pure (Json.mkObj [("diag", Json.mkObj [("rule", d.rule), ("file", d.file), ("line", d.line)])])
   | _ => .error s!"unknown op {op}"
 
 def handleLine (line : String) : Json :=
